@@ -177,6 +177,10 @@ def check(ctx):
             ctx.analysed[cfg]["reachable_bodies"] = len(inv.bodies)
             ctx.analysed[cfg]["panic_sites"] = len(sites)
             ctx.analysed[cfg]["residual_user_trait_calls_under_borrow"] = sorted({"%s: %s" % (p, d) for p, (b, d) in residual})[:20]
+            from .. import fixtures
+            fixtures.panics_detectors(ctx, "R1")
+            fixtures.borrow_detectors(ctx, "R2")
+            fixtures.blocking_detector(ctx, "R5", BLOCK_RX)
             rule_tls(ctx, facts, inv)
             rule_locks(ctx, facts, inv)
             rule_blocking(ctx, facts, inv)
